@@ -733,6 +733,121 @@ def malformed_variants(rng_seed, e, case, tzs):
     return out
 
 
+AUTH_CLI = {"plain": "plain", "crc": "crc", "signed": "signed", "nxp_signed": "signed-nxp", "encrypted": "signed-encrypted"}
+
+
+def cli_roundtrip(case, row, scratch):
+    """`nxpimage mbi export -c cfg` / `nxpimage mbi parse` / `nxpimage mbi export -c <parsed cfg>` through click's CliRunner:
+    the configuration glue (schema validation, load_from_config of every mixin, file lookup) around the modelled core.
+    Returns a list of failure triples."""
+    import shutil
+    import tempfile
+    import yaml
+    from click.testing import CliRunner
+    from spsdk.apps import nxpimage
+    fam, rev, tgt, auth, cn, itype, mixins, tzs, fixed = row
+    fails = []
+    out = Path(tempfile.mkdtemp(prefix="c01cli-", dir=scratch))
+    try:
+        r = pyres(build, case, row)
+        if r[0] != "ok":
+            return [("option set could not be constructed", r, None)]
+        obj, sp = r[1]
+        if "cert" in case and case["cert"]["kind"] == "v1":
+            obj.cert_block.alignment = 4
+        cert_bin = obj.cert_block.export() if "cert" in case else None
+        e = bytes(obj.export())
+        sr, ir = sig_range(obj, e, mixins), isk_sig_range(obj, e, mixins)
+        (out / "app.bin").write_bytes(bytes.fromhex(case["app"]))
+        cfg = {"family": fam, "revision": rev, "outputImageExecutionTarget": "xip" if tgt == "xip" else "load-to-ram",
+               "outputImageAuthenticationType": AUTH_CLI[auth], "masterBootOutputFile": "out.bin", "inputImageFile": "app.bin"}
+        if "load" in case:
+            cfg["outputImageExecutionAddress"] = hex(case["load"])
+        if "ver" in case:
+            cfg["imageVersion"] = case["ver"]
+        if "sub" in case:
+            cfg["outputImageSubtype"] = "MAIN" if case["sub"] == 0 else "NBU" if _has(mixins, "ManifestDigest") or fam.startswith(("k32", "kw4", "mcxw7")) else "RECOVERY"
+        if "tz" in case:
+            cfg["enableTrustZone"] = case["tz"][0] != "d"
+            if case["tz"][0] == "c":
+                (out / "tz.bin").write_bytes(bytes.fromhex(case["tz"][1]))
+                cfg["trustZonePresetFile"] = "tz.bin"
+        if "hwk" in case:
+            cfg["enableHwUserModeKeys"] = case["hwk"]
+        if "ks" in case and case["ks"][0] == "ks":
+            (out / "ks.bin").write_bytes(bytes.fromhex(case["ks"][1]))
+            cfg["keyStoreFile"] = "ks.bin"
+        if "hkey" in case:
+            cfg["outputImageEncryptionKeyFile"] = case["hkey"]
+        if "iv" in case:
+            cfg["CtrInitVector"] = case["iv"]
+        if "reloc" in case:
+            tab = []
+            for k, (img, dst) in enumerate(case["reloc"]):
+                (out / f"rel{k}.bin").write_bytes(bytes.fromhex(img))
+                tab.append({"binary": f"rel{k}.bin", "destAddress": hex(dst), "load": True})
+            cfg["applicationTable"] = tab
+        kf = None
+        if cert_bin is not None:
+            (out / "cert_block.bin").write_bytes(cert_bin)
+            ct = case["cert"]
+            kf = RSA_VARIANTS[ct["id"]][3] if ct["kind"] == "v1" else \
+                KC_ECC / (f"ec_pk_secp{ct['isk']}r1_sign_cert.pem" if ct["isk"] else f"ec_pk_secp{ct['curve']}r1_cert{ct['used']}.pem")
+            cfg["certBlock"] = "cert_block.bin"
+            cfg["signPrivateKey"] = str(kf)
+        if "fw" in case:
+            cfg["firmwareVersion"] = case["fw"]
+        if _has(mixins, "ManifestDigest"):
+            cfg["addManifestDigest"] = case.get("digest") == "auto"
+        (out / "cfg.yaml").write_text(yaml.safe_dump(cfg))
+        runner = CliRunner()
+
+        def run(args):
+            res = runner.invoke(nxpimage.main, args, catch_exceptions=True)
+            return res.exit_code, (res.output or "")[-300:] + (repr(res.exception) if res.exception and res.exit_code != 0 else "")
+        cwd = os.getcwd()
+        os.chdir(out)
+        try:
+            rc, msg = run(["mbi", "export", "-c", str(out / "cfg.yaml")])
+            if rc != 0 or not (out / "out.bin").exists():
+                return [("`nxpimage mbi export` refuses a configuration of a valid option set", [rc, msg], None)]
+            e1 = (out / "out.bin").read_bytes()
+            if mask(e1, sr, ir) != mask(e, sr, ir):
+                d = next((i for i in range(min(len(e), len(e1))) if mask(e1, sr, ir)[i:i + 1] != mask(e, sr, ir)[i:i + 1]), min(len(e), len(e1)))
+                fails.append(("`nxpimage mbi export` of the configuration differs from the image built through the class interface (outside the signature)",
+                              {"len": len(e1), "first_diff": d}, {"len": len(e)}))
+                return fails
+            args = ["mbi", "parse", "-b", str(out / "out.bin"), "-f", fam, "-r", rev, "-o", str(out / "parsed")]
+            if "hkey" in case:
+                args += ["-k", case["hkey"]]
+            rc, msg = run(args)
+            if rc != 0 or not (out / "parsed" / "mbi_config.yaml").exists():
+                return [("`nxpimage mbi parse` of an exported image fails", [rc, msg], None)]
+            pc = yaml.safe_load((out / "parsed" / "mbi_config.yaml").read_text())
+            if "signPrivateKey" in pc:
+                pc["signPrivateKey"] = str(kf)
+            if "outputImageEncryptionKeyFile" in pc:
+                pc["outputImageEncryptionKeyFile"] = case.get("hkey")
+            if cert_bin is not None and case["cert"]["kind"] == "v21":
+                (out / "parsed" / "cert_block.bin").write_bytes(cert_bin)
+                pc["certBlock"] = "cert_block.bin"
+            pc["masterBootOutputFile"] = "again.bin"
+            (out / "parsed" / "mbi_config.yaml").write_text(yaml.safe_dump(pc))
+            os.chdir(out / "parsed")
+            rc, msg = run(["mbi", "export", "-c", str(out / "parsed" / "mbi_config.yaml")])
+            if rc != 0 or not (out / "parsed" / "again.bin").exists():
+                return [("`nxpimage mbi export` refuses the configuration `nxpimage mbi parse` created", [rc, msg], None)]
+            e2 = (out / "parsed" / "again.bin").read_bytes()
+            if mask(e2, sr, ir) != mask(e, sr, ir):
+                d = next((i for i in range(min(len(e), len(e2))) if mask(e2, sr, ir)[i:i + 1] != mask(e, sr, ir)[i:i + 1]), min(len(e), len(e2)))
+                fails.append(("nxpimage mbi export -> parse -> export does not reproduce the image outside the signature", {"len": len(e2), "first_diff": d}, {"len": len(e)}))
+        finally:
+            os.chdir(cwd)
+        return fails
+    finally:
+        shutil.rmtree(out, ignore_errors=True)
+
+
 def _short(h):
     return h if len(h) <= 160 else {"len": len(h) // 2, "head": h[:64], "tail": h[-64:]}
 
@@ -905,6 +1020,36 @@ def run(ck, only_rows=None):
         _process_block(ck, results, drivers, shape_idx, groups, s, sc, st, sm)
     pool.close()
     pool.join()
+    # ---- command line entry points (CliRunner, in this process): first row of the mixin lists, valid option sets only
+    import logging
+    scli = ck.stream("cli", "`nxpimage mbi export -c` (= image built through the class interface), `nxpimage mbi parse`, `nxpimage mbi export -c <parsed configuration>` "
+                     "(= same image outside the signature) through click's CliRunner for the first database row of the mixin lists "
+                     f"({'every second' if ck.quick else 'every'} list; IVT classes); non-trivial = distinct (row, option set)")
+    cli_rows = [ri for k, ri in enumerate(sorted(first_of_shape.values())) if has_ivt_row(ROWS[ri][6]) and (k % 2 == 0 or not ck.quick)]
+    for ri in cli_rows:
+        row = ROWS[ri]
+        for d in range(ck.budget(1, 3)):
+            rng = random.Random(ck.rng.getrandbits(64))
+            case = gen_case(rng, row, 9 + d * 3)
+            alen = len(bytes.fromhex(case["app"]))
+            if case.get("sub", 0) > 1 or case.get("digest") not in (None, "auto") or case.get("ks", ["none"])[0] in ("otp", "ks_empty") \
+                    or (_has(row[6], "HmacMandatory") and alen + (-alen % 4) < 64):
+                case.pop("sub", None) if case.get("sub", 0) > 1 else None
+                if case.get("digest") not in (None, "auto"):
+                    case["digest"] = "auto"
+                if case.get("ks", ["none"])[0] in ("otp", "ks_empty"):
+                    case["ks"] = ["none", ""]
+                if "sub" not in case and _has(row[6], "ImageSubType"):
+                    case["sub"] = 0
+            scli.note((row[:5], case), cls=f"{row[2]}/{row[3]}")
+            try:
+                fl = cli_roundtrip(case, row, os.environ.get("VERIF_SCRATCH"))
+            except Exception as exc:  # noqa: BLE001
+                import traceback
+                fl = [("CLI round trip crashed: " + type(exc).__name__, traceback.format_exc()[-1200:], None)]
+            for what, o, x in fl:
+                scli.expect(False, {"row": list(row[:5]), "case": case}, what, o, x)
+    logging.disable(logging.CRITICAL)
     ck.extra["rows"] = len(ROWS)
     ck.extra["shapes"] = len(shape_idx)
 
